@@ -20,6 +20,7 @@ import (
 	"fmt"
 	"os"
 	"reflect"
+	"runtime"
 	"runtime/debug"
 	"unsafe"
 )
@@ -100,6 +101,7 @@ type Config struct {
 	// preemption, every pool Get misses, every Put is dropped.
 	Calm bool
 	// environment seams (simulated clock, CPU count, package-level randomness)
+	GCPre      bool    // run a full garbage collection at the first preemptions inside library calls
 	TickNs     int64   // clock advance per executed preemption point
 	ClockJumps []int64 // consumed one per scheduling point (clock skew / jumps forward)
 	NumCPU     int
@@ -110,6 +112,7 @@ type Config struct {
 type Stats struct {
 	SchedPoints     int64
 	Switches        int64
+	GCForced        int64 // collections forced at preemptions inside library calls
 	Preemptions     int64
 	PreemptInLib    int64
 	Points          int64
@@ -756,11 +759,16 @@ func Point(id int) {
 func (s *Sim) preempt(t *Task, id int) {
 	others := s.runnable(t)
 	c := s.nextPre()
+	if s.cfg.GCPre && s.St.GCForced < 2 {
+		s.St.GCForced++
+		runtime.GC() // a collection starts here, in the middle of a library call
+	}
 	if len(others) == 0 {
 		return
 	}
 	s.St.Preemptions++
 	s.St.PreemptInLib++
+
 	if len(s.PreemptAt) < 64 {
 		s.PreemptAt = append(s.PreemptAt, id)
 	}
